@@ -12,8 +12,9 @@ import tarfile
 
 REPO = os.environ.get("VERIF_REPO", "/repo")
 ROOT = os.path.dirname(os.path.dirname(os.path.abspath(__file__)))
-GEN = os.path.join(ROOT, "build", "gen")
-DATA = os.path.join(ROOT, "build", "data")
+BUILD = os.environ.get("VERIF_BUILD") or os.path.join(ROOT, "build")
+GEN = os.path.join(BUILD, "gen")
+DATA = os.path.join(BUILD, "data")
 
 DEFINES = {
     "HAVE_ATOMIC", "HAVE_HDF5", "HAVE_MULTIPRECISION", "HAVE_OPENMP",
